@@ -38,8 +38,15 @@ def parseRes (s : String) : Option Res :=
 structure DS where
   st : St
   ledgers : List (String × Ledger)
+  /-- per provider: the unlock requests the implementation accepted, with the height of the message -/
+  reqs : List (String × List Rec) := []
 
-def DS.init : DS := ⟨St.init 0 0, []⟩
+def DS.init : DS := ⟨St.init 0 0, [], []⟩
+
+def getReqs (rs : List (String × List Rec)) (k : String) : List Rec :=
+  match rs.find? (fun p => p.1 == k) with
+  | some p => p.2
+  | none => []
 
 def getLedger (ls : List (String × Ledger)) (k : String) : Ledger :=
   match ls.find? (fun p => p.1 == k) with
@@ -64,7 +71,7 @@ def parseOp (key kind : String) (args : List String) : Option Op :=
 def handle (d : DS) : List String → Option (DS × String)
   | ["reset", L, C] => do
       let L ← parseNat L; let C ← parseNat C
-      some (⟨St.init L C, []⟩, "ok")
+      some (⟨St.init L C, [], []⟩, "ok")
   | ["par", _h, L, C] => do
       let L ← parseNat L; let C ← parseNat C
       some ({ d with st := (step d.st 0 (.setParams L C)).1 }, "ok")
@@ -82,6 +89,20 @@ def handle (d : DS) : List String → Option (DS × String)
       let L ← parseNat L; let C ← parseNat C; let h ← parseInt h
       let before ← parseRecs before; let burned ← parseNat burned; let acc ← parseBool acc
       some (d, toString (removeOK L C h before burned acc))
+  | ["chk", "c15.request", _tag, key, h, u, acc, after] => do
+      -- an unlock message the implementation answered: remember it if accepted, then the stored list
+      -- must be within the remembered requests
+      let h ← parseInt h; let u ← parseNat u; let acc ← parseBool acc; let after ← parseRecs after
+      let rq := getReqs d.reqs key
+      let rq' := if acc then rq ++ [⟨h, u⟩] else rq
+      some ({ d with reqs := (key, rq') :: d.reqs.filter (fun p => p.1 != key) }, toString (genuineOK rq' after))
+  | ["chk", "c15.genuine", _tag, key, stored] => do
+      let stored ← parseRecs stored
+      some (d, toString (genuineOK (getReqs d.reqs key) stored))
+  | ["chk", "c15.removereal", _tag, key, L, C, h, before, burned, acc] => do
+      let L ← parseNat L; let C ← parseNat C; let h ← parseInt h
+      let before ← parseRecs before; let burned ← parseNat burned; let acc ← parseBool acc
+      some (d, toString (removeRealOK (getReqs d.reqs key) L C h before burned acc))
   | ["chk", "c15.consume", _tag, L, before, after, burned, acc] => do
       let L ← parseNat L
       let before ← parseRecs before; let after ← parseRecs after
